@@ -13,6 +13,9 @@ import json
 import os
 import pickle
 import sys
+import os as _os
+sys.path.insert(0, _os.path.dirname(_os.path.abspath(__file__)))
+from _report import spread  # noqa: E402
 import tarfile
 import zipfile
 
@@ -207,4 +210,4 @@ for a, b in itertools.permutations(sorted(REAL), 2):
             shutil.rmtree(px, ignore_errors=True)
         else:
             os.remove(px)
-print(json.dumps({"bounded": True, "runs": n, "real_files": {k: v for k, v in IDENT.items()}, "n_failures": len(fails), "failures": fails[:80]}))
+print(json.dumps({"bounded": True, "runs": n, "real_files": {k: v for k, v in IDENT.items()}, "n_failures": len(fails), "failures": spread(fails, lambda f: (f.get("face"), f.get("format"), f.get("kind")), per=6)}))
